@@ -27,7 +27,7 @@ HARNESSES = {
     "sim_rc":      ("sim_rc.cpp", "sim", "rc"),
     "sim_fuzz":    ("sim_fuzz.cpp", "sim", "fuzz"),
     "sim_replay":  ("sim_replay.cpp", "sim", "plain"),
-    "conf_rc":     ("conf_rc.cpp", "sim", "rc"),
+    "conf_rc":     ("conf_rc.cpp", "sim", "rc", ["conf_inc.c"]),
     "allocfail":   ("allocfail.cpp", "sim", "rc"),
     "threads_tsan":  ("threads.cpp", "tsan", "plain"),
     "threads_tasan": ("threads.cpp", "tasan", "plain"),
@@ -88,9 +88,11 @@ def write_harness_ninja(names):
     out = []
     out.append("builddir = %s" % os.path.join(BUILD, "h"))
     out.append("rule cxx\n  command = clang++ -std=gnu++17 $flags -MD -MF $out.d -c $in -o $out\n  depfile = $out.d\n  deps = gcc\n  description = CXX $out")
+    out.append("rule cc\n  command = clang $flags -MD -MF $out.d -c $in -o $out\n  depfile = $out.d\n  deps = gcc\n  description = CC $out")
     out.append("rule link\n  command = clang++ $flags -o $out $in $libs\n  description = LINK $out")
     for n in names:
-        src, v, kind = HARNESSES[n]
+        src, v, kind = HARNESSES[n][:3]
+        extra = HARNESSES[n][3] if len(HARNESSES[n]) > 3 else []
         srcp = os.path.join(HARN, src)
         if not os.path.exists(srcp):
             continue
@@ -109,7 +111,13 @@ def write_harness_ninja(names):
         if kind == "rc":
             libs += " -lrapidcheck"
         out.append("build %s: cxx %s\n  flags = %s" % (obj, srcp, cflags))
-        out.append("build %s: link %s | %s\n  flags = %s\n  libs = %s" % (exe, obj, libpath(v), lflags, libs))
+        objs = [obj]
+        for e in extra:
+            eo = os.path.join(BUILD, "h", n + "-" + e + ".o")
+            out.append("build %s: cc %s\n  flags = %s -DVERIF_SYSCONFIG_FILES_C='\"%s/src/lib/ares_sysconfig_files.c\"'" % (eo, os.path.join(HARN, e), cflags, REPO))
+            objs.append(eo)
+        out.append("build %s: link %s | %s\n  flags = %s\n  libs = %s" % (exe, " ".join(objs), libpath(v), lflags, libs))
+        continue
     with open(path + ".tmp", "w") as f:
         f.write("\n".join(out) + "\n")
     os.replace(path + ".tmp", path)
